@@ -51,15 +51,15 @@ def run(ctx):
     ctx.tlc_gen("MC_Hierarchy", GEN.format(nodes="{1,2}", mvals="MV2", inits="Inits2", encs='{"auto"}', maxupd=1, maxedge=0, legacy="TRUE", emit="", inv="", ordered="FALSE"),
                 "legacy-selftest", expect_violation=True, workers=2)
     # OehIndex level: ALL labelled DAGs x every encoding that can be forced x ALL measure-update sequences
-    # (thorough: the update sequences of length 3 / 2 over 3 / 4 nodes are a seeded sample, every DAG of 5 nodes is built)
+    # (thorough: every sequence <= 3 over 3 nodes; a seeded sample of 100000 of the sequences <= 2 over 4 nodes; every 5-node DAG up to renaming)
     api = drop_prefixes(ctx.tlc_gen("MC_Hierarchy", GEN.format(nodes="{1,2,3}", mvals="MV3", inits="Inits3a", encs=ALLENC, maxupd=2 if q else 3,
                                                                maxedge=0, legacy="FALSE", emit=E, inv="AnswersMatchGraph", ordered="FALSE"),
                                     "dags3", workers=W, timeout=3000))
-    api = cap(ctx, api, 10**9 if q else 20000, "3-node DAGs x update sequences <= 3")
+    api = cap(ctx, api, 10**9 if q else 70000, "3-node DAGs x update sequences <= 3")
     a4 = drop_prefixes(ctx.tlc_gen("MC_Hierarchy", GEN.format(nodes="{1,2,3,4}", mvals="MV2" if q else "MV3", inits="Inits4", encs=ALLENC,
                                                               maxupd=1 if q else 2, maxedge=0, legacy="FALSE", emit=E, inv="", ordered="FALSE"),
                                    "dags4", workers=W, timeout=3000))
-    api += cap(ctx, a4, 10**9 if q else 30000, "4-node DAGs x update sequences <= 2")
+    api += cap(ctx, a4, 10**9 if q else 100000, "4-node DAGs x update sequences <= 2")
     if not q:
         # 5 nodes: every DAG up to renaming of its nodes (edges from larger to smaller numbers: 1024), one update each
         api += drop_prefixes(ctx.tlc_gen("MC_Hierarchy", GEN.format(nodes="{1,2,3,4,5}", mvals="MV2", inits="Inits5", encs=ALLENC,
@@ -70,7 +70,7 @@ def run(ctx):
     if not q:
         st += ctx.tlc_gen("MC_Hierarchy", GEN.format(nodes="{1,2,3,4}", mvals="MV2", inits="Inits4", encs='{"auto"}',
                                                      maxupd=1, maxedge=1, legacy="FALSE", emit=E, inv="", ordered="FALSE"), "store4", workers=W, timeout=3000)
-    st = cap(ctx, drop_prefixes(st), 10**9 if q else 8000, "store histories")
+    st = cap(ctx, drop_prefixes(st), 10**9 if q else 30000, "store histories")
     ctx.cov["scripts_after_prefix_removal"] = len(api) + len(st)
     ctx.assume("every acyclic relation over <= 4 labelled nodes (thorough: plus every 5-node DAG up to renaming) is enumerated, i.e. the covering relations AND their "
                "non-reduced supersets; measures are integers and halves (floats k/2), NoM = property absent",
